@@ -451,6 +451,64 @@ def retype_pass(ctx):
             return
 
 
+def readd_pass(ctx):
+    """a feature that leaves its class and comes back (the same declaration removed and added again, or a new one of the
+    same name): on the instances that had set it, it has never been set — default, eIsSet false, nothing to save"""
+    import io
+    from pyecore import ecore as E
+    from pyecore.resources import URI
+    from pyecore.resources.xmi import XMIResource
+    n = 30 if ctx.quick() else 400
+    for h in range(n):
+        rng = common.sub_rng(ctx.seed, 'C15', 'readd', h)
+        pk = E.EPackage('p', 'http://verif/c15a', 'p')
+        A = E.EClass('A')
+        pk.eClassifiers.append(A)
+        t, v = rng.choice([(E.EInt, 3), (E.EString, 's'), (E.EBoolean, True), (E.EDouble, 1.5)])
+        many = rng.random() < .3
+        x = E.EAttribute('x', t, upper=-1 if many else 1)
+        A.eStructuralFeatures.append(x)
+        a, b = A(), A()
+        if many:
+            a.x.append(v)
+        else:
+            a.x = v
+        how = rng.choice(['remove', 'pop', 'discard', 'clear'])
+        fs = A.eStructuralFeatures
+        if how == 'remove':
+            fs.remove(x)
+        elif how == 'pop':
+            fs.pop()
+        elif how == 'discard':
+            fs.discard(x)
+        else:
+            fs.clear()
+        back = x if rng.random() < .6 else E.EAttribute('x', t, upper=-1 if many else 1)
+        fs.append(back)
+        ctx.evaluations += 1
+        ctx.count(f'readd/{how}/' + ('same' if back is x else 'new'))
+        ctx.nontriv(('readd', h))
+        problems = []
+        for name, o in (('the instance that had set it', a), ('another instance', b)):
+            val = list(o.x) if many else o.x
+            want = [] if many else back.get_default_value()
+            if val != want:
+                problems.append(f'{name} reads {val!r} (default {want!r})')
+            if o.eIsSet('x'):
+                problems.append(f'{name} reports eIsSet true')
+        r = XMIResource(URI('mem'))
+        r.append(a)
+        buf = io.BytesIO()
+        r.save(output=_Out(buf))
+        if b' x=' in buf.getvalue() or b'<x>' in buf.getvalue():
+            problems.append('a save writes the feature')
+        if problems:
+            ctx.violate({'clause': 'default-after-readd', 'trigger': 'none'},
+                        f'{t.name}{"[*]" if many else ""} feature removed ({how}) and added again ({"the same declaration" if back is x else "a new one"}): '
+                        + '; '.join(problems), {'readd': True, 'case': h})
+            return
+
+
 def run(ctx):
     common.use_repo()
     n = 500 if ctx.quick() else 8000
@@ -468,6 +526,7 @@ def run(ctx):
     bulk_reject_pass(ctx)
     single_reject_pass(ctx)
     retype_pass(ctx)
+    readd_pass(ctx)
     out = common.run_driver('dflt', model_in)
     bad = set()
     for line, exp, got in zip(model_in, expect, out):
